@@ -2,6 +2,7 @@ package exec
 
 import (
 	"fmt"
+	"strconv"
 	"go/token"
 	"go/types"
 
@@ -64,6 +65,29 @@ func installVx(ex *Exec) {
 	E[p+"Byte"] = func(ex *Exec, fr *frame, a []Value) Value {
 		return ex.NewInput(ex.concreteStr(a[0], "tag"), sym.BV(8))
 	}
+	// ByteIn(tag, lo, hi): a symbolic byte in [lo,hi]; the range is also kept
+	// for the executor's own interval reasoning so that comparisons the range
+	// decides need no solver query.
+	E[p+"ByteIn"] = func(ex *Exec, fr *frame, a []Value) Value {
+		tag := ex.concreteStr(a[0], "tag")
+		lo := uint64(ex.concreteInt(a[1].(*sym.Term), "lo")) & 0xff
+		hi := uint64(ex.concreteInt(a[2].(*sym.Term), "hi")) & 0xff
+		v := ex.NewInput(tag, sym.BV(8))
+		ex.assume(c.And(c.Cmp(sym.OULe, c.Const(sym.BV(8), lo), v), c.Cmp(sym.OULe, v, c.Const(sym.BV(8), hi))))
+		ex.varRange[v.ID] = [2]uint64{lo, hi}
+		return v
+	}
+	// Digit(tag, lo): an ASCII decimal digit '0'+d with d a 4-bit variable in
+	// [lo,9]; the small variable keeps interval reasoning about decimal
+	// accumulations (x*10+d) tight.
+	E[p+"Digit"] = func(ex *Exec, fr *frame, a []Value) Value {
+		tag := ex.concreteStr(a[0], "tag")
+		lo := uint64(ex.concreteInt(a[1].(*sym.Term), "lo"))
+		v := ex.NewInput(tag, sym.BV(4))
+		ex.assume(c.And(c.Cmp(sym.OULe, c.Const(sym.BV(4), lo), v), c.Cmp(sym.OULe, v, c.Const(sym.BV(4), 9))))
+		ex.varRange[v.ID] = [2]uint64{lo, 9}
+		return c.BinBV(sym.OAdd, c.Const(sym.BV(8), '0'), c.ZExt(v, 8))
+	}
 	E[p+"Bytes"] = func(ex *Exec, fr *frame, a []Value) Value {
 		tag := ex.concreteStr(a[0], "tag")
 		n := ex.concreteInt(a[1].(*sym.Term), "vx.Bytes n")
@@ -112,6 +136,19 @@ func installVx(ex *Exec) {
 		v := ex.NewInput(tag, sym.BV(w))
 		ex.assume(c.And(c.Cmp(sym.OSLe, c.Const(sym.BV(w), uint64(lo)), v), c.Cmp(sym.OSLe, v, c.Const(sym.BV(w), uint64(hi)))))
 		return c.SExt(v, 64)
+	}
+	// FloatText(f): the text handed to strconv.ParseFloat that produced f
+	// (engine: the tag of the uninterpreted ParseFloat result; ok=false if f is
+	// not such a value). Natively: the shortest decimal that parses to f.
+	E[p+"FloatText"] = func(ex *Exec, fr *frame, a []Value) Value {
+		f := a[0].(*sym.Term)
+		if txt, ok := ex.pfText[f.ID]; ok {
+			return Tuple{ex.normStr(txt), c.T}
+		}
+		if f.IsConst() {
+			return Tuple{Str{S: strconvFormat(sym.FloatOf(f))}, c.T}
+		}
+		return Tuple{Str{}, c.F}
 	}
 	E[p+"Bool"] = func(ex *Exec, fr *frame, a []Value) Value {
 		return ex.NewInput(ex.concreteStr(a[0], "tag"), sym.Bool)
@@ -284,6 +321,8 @@ func installVx(ex *Exec) {
 		return nil
 	}
 }
+
+func strconvFormat(f float64) string { return strconv.FormatFloat(f, 'g', -1, 64) }
 
 // permuteMapOrder forks over every iteration order of maps with ≤ 3
 // entries (rotation only above that).
